@@ -283,7 +283,10 @@ type sfRun struct {
 	RestartMismatch int
 	OpenRetries     int
 	FaultStep       int // step during which the fault was injected (-1 = none)
-	Err             error
+	// per restart step: what the reopen recovered and what the model expected there
+	RestartRecovered map[int]c10State
+	RestartExpected  map[int]c10State
+	Err              error
 }
 
 func sfEventSig(e serf.Event) string {
@@ -401,6 +404,10 @@ func sfDrive(path string, ops []c10Op, minCompact int, rejoin bool, h *sfHook) (
 				// replaying a recorded leave resets the clocks
 				model.st.Clock, model.st.EventClock, model.st.QueryClock = st.Clock, st.EventClock, st.QueryClock
 			}
+			if run.RestartRecovered == nil {
+				run.RestartRecovered, run.RestartExpected = map[int]c10State{}, map[int]c10State{}
+			}
+			run.RestartRecovered[step], run.RestartExpected[step] = st.clone(), model.st.clone()
 			if !st.equal(model.st) {
 				// a clean restart that does not restore the state is C10's subject, not this
 				// driver's: adopt what was recovered so that later steps stay exact
